@@ -40,12 +40,12 @@ BOUNDS = {"quick": dict(rows="3-4 daily rows / 48 hourly rows", histories="2 pre
 STUBS = ["_fit/_adaptive_fit/_predict of the gate cases as in C04", "SufficiencyCriteria._check_extreme_values -> no-op",
          "pandas.core.nanops._ensure_numeric passes symbolic reals through (billing_df groupby mean on an object column)"]
 MODELS_USED = ["symreal ExtensionArray"]
-ASSUMPTIONS = ["hourly model state (sklearn scalers, ElasticNet, temporal-cluster table) is outside the claim: it cannot carry symbolic values",
+ASSUMPTIONS = ["hourly model state (hourly-model/state): stored model written by hand in the to_dict() layout, concrete weather and usage; the reporting sets, usage present/absent and a GHI column are solver-chosen forks (2-call histories)",
                "hourly data classes: only the structural variants (columns present, role, zone, electricity flag) are quantified, on one concrete 4-day frame (hourly-data/ctor)",
                "call histories longer than two predict calls, and interleavings beyond fit(A) [predict(A)] fit(B) (metrics concrete), are outside the claim"]
 EXPECTED_REGIMES = ["usage exactly 0 on electricity data", "poor fit appended to the model", "second predict after a different dataset",
                     "temperature handed over in another timezone", "columns already carry the conventional names", "hourly reporting data without a usage column",
-                    "fit of another meter between serialisations of one model"]
+                    "fit of another meter between serialisations of one model", "hourly model: second predict after a shorter reporting set"]
 
 
 def ENCODED():
@@ -58,7 +58,7 @@ def ENCODED():
 def cases(tier, seed):
     out = [f"data/{k}/{e}" for k in ("daily", "hourly") for e in ("elec", "gas")] + ["predict/frame", "predict/history", "predict/billing-agg"]
     out += [f"gate/{f}" for f in ("daily", "billing", "hourly")] + ["gate/hourly-predict"]
-    out += [f"series/{fam}/{role}" for fam in ("daily", "billing") for role in ("baseline", "reporting")] + ["accessor/billing_df", "hourly-data/ctor", "interleave/daily", "interleave/billing"]
+    out += [f"series/{fam}/{role}" for fam in ("daily", "billing") for role in ("baseline", "reporting")] + ["accessor/billing_df", "hourly-data/ctor", "interleave/daily", "interleave/billing", "hourly-model/state"]
     return out
 
 
@@ -453,6 +453,68 @@ def run_interleave(case, fam):
     case.sample(dict(family=fam, histories=len(paths)))
 
 
+# ------------------------------------------------------------------ hourly model state across predict calls
+
+HM_FIRST = {"one week in June": ("2021-06-07", 7), "two days in January": ("2021-01-04", 2), "DST weekend": ("2021-03-12", 4)}
+HM_SECOND = {"sixty days from January": ("2021-01-01", 60), "June and July": ("2021-06-01", 61)}
+
+
+def hourly_state_scenario(first, first_usage, second, second_usage, ghi):
+    """stored hourly model (every month x weekday known): predict(first set), then predict(second set); the model object
+    must be what it was (state read from the live object) and the second prediction must be the one a freshly loaded
+    model gives"""
+    import logging
+    logging.disable(logging.CRITICAL)
+    from . import hourlyref as H
+    m = H.model()
+    s0 = H.state(m)
+    m.predict(H.reporting(*HM_FIRST[first], usage=first_usage, ghi=ghi))
+    s1 = H.state(m)
+    pr = []
+    changed = H.state_diff(s0, s1)
+    if changed:
+        detail = f"temporal-cluster table {len(s0['temporal_clusters'])} -> {len(s1['temporal_clusters'])} rows" if "temporal_clusters" in changed else ""
+        pr.append(f"predict() on {first} changed the fitted model: {changed} {detail}")
+    try:
+        got = m.predict(H.reporting(*HM_SECOND[second], seed=3, usage=second_usage))["predicted"].to_numpy(dtype=float)
+    except Exception as ex:
+        got = None
+        pr.append(f"second predict ({second}) on the same model object raised {type(ex).__name__}: {str(ex)[:100]}")
+    want = H.model().predict(H.reporting(*HM_SECOND[second], seed=3, usage=second_usage))["predicted"].to_numpy(dtype=float)
+    if got is not None and not (got.shape == want.shape and np.array_equal(got, want, equal_nan=True)):
+        n = int((~((got == want) | (np.isnan(got) & np.isnan(want)))).sum()) if got.shape == want.shape else -1
+        pr.append(f"prediction for {second} depends on the earlier predict of {first}: {n} of {len(want)} hours differ from a freshly loaded model")
+    return pr
+
+
+def replay_hourly_state(inp):
+    pr = hourly_state_scenario(inp["first"], inp["first_usage"], inp["second"], inp["second_usage"], inp["ghi"])
+    known_only = bool(pr) and inp["ghi"] and all("['warnings']" in x for x in pr)
+    return bool(pr), "; ".join(pr)
+
+
+def run_hourly_state(case):
+    case.inputs = []
+
+    def run():
+        cfg = dict(first=F.choose("first", list(HM_FIRST)), first_usage=F.choose("first_usage", [True, False]),
+                   second=F.choose("second", list(HM_SECOND)), second_usage=F.choose("second_usage", [True, False]), ghi=F.choose("ghi", [False, True]))
+        return cfg, hourly_state_scenario(**cfg)
+
+    paths = case.explore(run)
+    for p in paths:
+        if p.outcome != "ret":
+            case.rep["harness_errors"].append(f"hourly state scenario raised {p.value!r}")
+            continue
+        cfg, pr = p.value
+        rp = ("hourly-state", (lambda c: lambda mdl: dict(c))(cfg))
+        only_warning = bool(pr) and all("changed the fitted model: ['warnings']" in x for x in pr)
+        case.prove(p, not pr, "predict() leaves the hourly model as it was, and a later prediction does not depend on earlier predict calls", replay=rp,
+                   exclude=[("C02-hourly-ghi-warning-appended", z3.BoolVal(cfg["ghi"] and only_warning))])
+        case.regime("hourly model: second predict after a shorter reporting set")
+    case.sample(dict(histories=len(paths)))
+
+
 # ------------------------------------------------------------------ predict
 
 def replay_predict(inp):
@@ -651,7 +713,7 @@ def run_hourly_predict(case):
     case.sample(dict(scenario="HourlyModel.fit then predict on GHI-carrying reporting data"))
 
 
-REPLAY = {"data": replay_data, "predict": replay_predict, "gate": replay_gate, "hp": replay_hp, "series": replay_series, "accessor": replay_accessor, "hourly-data": replay_hourly_data, "interleave": replay_interleave}
+REPLAY = {"data": replay_data, "predict": replay_predict, "gate": replay_gate, "hp": replay_hp, "series": replay_series, "accessor": replay_accessor, "hourly-data": replay_hourly_data, "interleave": replay_interleave, "hourly-state": replay_hourly_state}
 
 
 def run_case(case: Case, name: str):
@@ -666,6 +728,8 @@ def run_case(case: Case, name: str):
         return run_hourly_data(case)
     if parts[0] == "interleave":
         return run_interleave(case, parts[1])
+    if parts[0] == "hourly-model":
+        return run_hourly_state(case)
     if parts[0] == "predict":
         if parts[1] == "billing-agg":
             return run_billing_agg(case)
